@@ -44,6 +44,10 @@ Lemma getitem_dict_found {T C S : Type} (O : cfg_oracles T C S) (d : list (pyval
   is_key k = true -> dfind k d = Some v -> dy_getitem O (VDict d) k = XDone v.
 Proof. intros Hk Hf. unfold dy_getitem. now rewrite Hk, Hf. Qed.
 
+Lemma getattr_found {T C S : Type} (a : list (pstr * pyval T C S)) n v :
+  afind n a = Some v -> dy_getattr (VObj a) n = XDone v.
+Proof. intros Hf. unfold dy_getattr. now rewrite Hf. Qed.
+
 Lemma rt_len_3 {X : Type} (a b c : X) r : (rt_len (a :: b :: c :: r) =? 2)%Z = false.
 Proof. apply Z.eqb_neq. unfold rt_len. cbn [length]. lia. Qed.
 
@@ -75,7 +79,7 @@ Ltac range_check Hmax lvl E2 :=
 (* a loop over the lines of a file is the fold of STEP over the model states encoded by ENC, from M0;
    first goal: the body is STEP on encoded states, second goal: what follows the loop *)
 Ltac lines_loop ENC STEP M0 :=
-  match goal with |- rt_for_lines ?all ?rest ?body ?s0 rt_no_else_file ?k = _ =>
+  match goal with |- context [rt_for_lines ?all ?rest ?body ?s0 rt_no_else_file ?k] =>
     let HB := fresh "HB" in
     assert (HB : forall ln m, body ln (ENC m) = match STEP ln m with inl m' => FCont (ENC m') | inr v => FRet v end);
     [ cbv beta
@@ -520,22 +524,22 @@ Proof.
   now destruct (Z.eqb x (Z.of_nat l) && (n <=? Z.of_nat (S (length lv)))%Z).
 Qed.
 
-Definition ln_step {R : Type} (ln : pstr) (lv : list Z) : list Z + xres R :=
-  match ln_line iws dz (Some 10%Z) ln with
+Definition ln_step {R : Type} (maxlvl : option Z) (ln : pstr) (lv : list Z) : list Z + xres R :=
+  match ln_line iws dz maxlvl ln with
   | inl l => inl (lv ++ [l])
   | inr e => inr (XFail e)
   end.
 
-Lemma ln_fold {R : Type} lines acc :
-  fold_stop (@ln_step R) lines acc =
-  match ln_lines iws dz (Some 10%Z) lines with
+Lemma ln_fold {R : Type} maxlvl lines acc :
+  fold_stop (@ln_step R maxlvl) lines acc =
+  match ln_lines iws dz maxlvl lines with
   | inl lv => inl (acc ++ lv)
   | inr e => inr (XFail e)
   end.
 Proof.
   revert acc. induction lines as [|ln r IH]; intros acc; cbn [fold_stop ln_lines]; [now rewrite app_nil_r|].
-  unfold ln_step at 1. destruct (ln_line iws dz (Some 10%Z) ln) as [l|e]; [|reflexivity].
-  rewrite IH. destruct (ln_lines iws dz (Some 10%Z) r); [|reflexivity]. now rewrite <- app_assoc.
+  unfold ln_step at 1. destruct (ln_line iws dz maxlvl ln) as [l|e]; [|reflexivity].
+  rewrite IH. destruct (ln_lines iws dz maxlvl r); [|reflexivity]. now rewrite <- app_assoc.
 Qed.
 
 Lemma omen_load_length_eq dir file (g : list (val * val)) n :
@@ -560,7 +564,7 @@ Proof.
   unfold rt_for_file, rt_fopen. cbn [f_all f_rest].
   lines_loop (fun lv => (@VDict (F fo) C SS (dput (VStr k_ln) (VDict (level_dict (fun l => enc_ints (lnb n lv l)) (seq 0 11))) g),
                         @VInt (F fo) C SS (Z.of_nat (S (length lv)))))
-             (@ln_step (val * val)) (@nil Z).
+             (@ln_step (val * val) (Some 10%Z)) (@nil Z).
   - intros ln lv. unfold ln_step, ln_line.
     cbn [dy_rstrip strip_pred xthen xbind dy_int x_opt]. rewrite rstrip_crlf, Hpint.
     destruct (parse_int iws dz (rstrip is_crlf ln)) as [lvl|]; cbn [x_opt xthen xbind x_isa rt_isa]; [|reflexivity].
@@ -664,6 +668,88 @@ Proof.
   match goal with |- context [of_xres ?o] => destruct o as [lnl|e] end; cbn [of_xres sum_bind]; [|fail_case].
   destruct (ln_lines iws dz (Some 10%Z) lnl) as [lv|e]; cbn [sum_bind]; [|fail_case].
   cbn [xbind dput key_eqb str_eqb N.eqb Pos.eqb andb k_max_level k_ngram k_alphabet_encoding k_alphabet k_ip k_ep k_cp k_ln].
+  reflexivity.
+Qed.
+
+
+(* ================================================================ the scorer: OmenScorer.__init__ / _load_omen *)
+
+Definition ngf (its : list (Z * pstr)) : Z :=
+  match its with it :: _ => Z.of_nat (length (snd it)) | [] => (-1)%Z end.
+
+Definition sobj (enc : pstr) (vmax : val) (dip dcp : list (pstr * Z)) (lv : list Z) (ng : Z) : val :=
+  VObj [ (k_encoding, VStr enc); (k_max_omen_level, vmax); (k_ip, enc_ep dip); (k_cp, enc_ep dcp);
+         (k_ln, VList (VStr k_ten :: map VInt lv)); (k_ngram, VInt ng) ].
+
+Lemma ngf_snoc its it : ngf (its ++ [it]) = if (ngf its =? -1)%Z then Z.of_nat (length (snd it)) else ngf its.
+Proof.
+  destruct its as [|x r]; cbn [app ngf]; [reflexivity|].
+  replace (Z.of_nat (length (snd x)) =? -1)%Z with false by (symmetry; apply Z.eqb_neq; lia). reflexivity.
+Qed.
+
+Theorem omen_scorer_init_eq base enc (vmax : val) :
+  py_omen_scorer_init fo W (VObj []) (VStr base) (VStr enc) vmax =
+  match omen_scorer_load fo W iws dz base enc with
+  | inl t => XDone (enc_scorer (VStr enc) vmax t, VNone)
+  | inr e => XFail e
+  end.
+Proof.
+  unfold omen_scorer_load. cbv beta zeta delta [py_omen_scorer_init py_omen_scorer_load_omen]. name_keys.
+  cbn [dy_setattr aput str_eqb N.eqb Pos.eqb andb xbind k_encoding k_max_omen_level k_ip k_cp k_ln k_ngram]. name_keys.
+  change (@VDict (F fo) C SS []) with (@enc_ep (F fo) C SS []).
+  change (VList [VStr k_ten]) with (@VList (F fo) C SS (VStr k_ten :: map VInt [])).
+  fold (sobj enc vmax [] [] [] (-1)).
+  (* IP.level *)
+  cbn [dy_path_join strs_of option_map xbind]. unfold sobj at 1.
+  erewrite getattr_found by reflexivity. cbn [xbind dy_open]. unfold pstr, str in *.
+  match goal with |- context [of_xres ?o] => destruct o as [ipl|e] end; cbn [of_xres sum_bind xthen xbind];
+    [|now rewrite !if_same].
+  unfold rt_for_file, rt_fopen. cbn [f_all f_rest].
+  lines_loop (fun its => sobj enc vmax (ep_dict its) [] [] (-1)) (@items_step (val * val) None) (@nil (Z * pstr)).
+  { intros ln its. unfold items_step, level_line. level_prefix ln f k lvl E1.
+    unfold sobj at 1. erewrite upd_attr_found by reflexivity.
+    rewrite getitem_1. cbn [xthen enc_ep dy_setitem is_key xbind]. rewrite dput_enc_ep.
+    cbn [aput str_eqb N.eqb Pos.eqb andb k_encoding k_max_omen_level k_ip k_cp k_ln k_ngram].
+    now rewrite ep_dict_snoc. }
+  rewrite items_fold. destruct (level_lines iws dz None ipl) as [ip|e]; cbn [sum_bind app]; [|reflexivity].
+  (* CP.level *)
+  cbn [dy_path_join strs_of option_map xbind].
+  unfold sobj at 1. erewrite getattr_found by reflexivity. cbn [xbind dy_open]. unfold pstr, str in *.
+  match goal with |- context [of_xres ?o] => destruct o as [cpl|e] end; cbn [of_xres sum_bind xthen xbind];
+    [|now rewrite !if_same].
+  unfold rt_for_file, rt_fopen. cbn [f_all f_rest].
+  lines_loop (fun its => sobj enc vmax (ep_dict ip) (ep_dict its) [] (ngf its)) (@items_step (val * val) None) (@nil (Z * pstr)).
+  { intros ln its. unfold items_step, level_line. level_prefix ln f k lvl E1.
+    unfold sobj at 1. erewrite upd_attr_found by reflexivity.
+    rewrite getitem_1. cbn [xthen enc_ep dy_setitem is_key xbind]. rewrite dput_enc_ep.
+    cbn [aput str_eqb N.eqb Pos.eqb andb k_encoding k_max_omen_level k_ip k_cp k_ln k_ngram].
+    erewrite getattr_found by reflexivity. cbn [xbind dy_eq]. rewrite ngf_snoc. cbn [snd].
+    destruct (ngf its =? -1)%Z.
+    - cbn [dy_len xbind dy_setattr aput str_eqb N.eqb Pos.eqb andb k_encoding k_max_omen_level k_ip k_cp k_ln k_ngram].
+      unfold sobj, rt_len. now rewrite ep_dict_snoc.
+    - unfold sobj. now rewrite ep_dict_snoc. }
+  rewrite items_fold. destruct (level_lines iws dz None cpl) as [cp|e]; cbn [sum_bind app]; [|reflexivity].
+  (* LN.level *)
+  cbn [dy_path_join strs_of option_map xbind dy_open]. unfold pstr, str in *.
+  match goal with |- context [of_xres ?o] => destruct o as [lnl|e] end; cbn [of_xres sum_bind xthen xbind];
+    [|now rewrite !if_same].
+  unfold rt_for_file, rt_fopen. cbn [f_all f_rest].
+  lines_loop (fun lv => sobj enc vmax (ep_dict ip) (ep_dict cp) lv (ngf cp)) (@ln_step (val * val) None) (@nil Z).
+  { intros ln lv. unfold ln_step, ln_line.
+    cbn [dy_rstrip strip_pred xthen xbind dy_int x_opt]. rewrite rstrip_crlf, Hpint.
+    destruct (parse_int iws dz (rstrip is_crlf ln)) as [lvl|]; cbn [x_opt xthen xbind x_isa rt_isa]; [|reflexivity].
+    cbn [dy_lt xbind]. destruct (lvl <? 0)%Z eqn:E1; cbn [xbind x_isa rt_isa]; [reflexivity|].
+    unfold sobj at 1. erewrite upd_attr_found by reflexivity.
+    cbn [dy_append xthen xbind aput str_eqb N.eqb Pos.eqb andb k_encoding k_max_omen_level k_ip k_cp k_ln k_ngram].
+    unfold sobj. rewrite map_app. reflexivity. }
+  rewrite ln_fold. destruct (ln_lines iws dz None lnl) as [lv|e]; cbn [sum_bind app]; [|reflexivity].
+  (* self.max_len = len(self.ln) - 1 *)
+  cbn [xbind]. unfold sobj at 1. erewrite getattr_found by reflexivity.
+  cbn [xbind dy_len dy_sub dy_setattr aput str_eqb N.eqb Pos.eqb andb k_encoding k_max_omen_level k_ip k_cp k_ln k_ngram k_max_len].
+  unfold enc_scorer. cbn [st_ip st_cp st_ln st_ngram]. unfold sobj.
+  cbn [xbind dy_setattr aput str_eqb N.eqb Pos.eqb andb k_encoding k_max_omen_level k_ip k_cp k_ln k_ngram k_max_len].
+  replace (rt_len (@VStr (F fo) C SS k_ten :: map VInt lv) - 1)%Z with (Z.of_nat (length lv))
+    by (unfold rt_len; cbn [length]; rewrite map_length; lia).
   reflexivity.
 Qed.
 
